@@ -187,3 +187,37 @@ fn c17_span_join() {
     assert!(j.end() == a + la || j.end() == b + lb);
     kani::cover!(a > b && a + la < b + lb);
 }
+
+/// C19 H-seq at the symbol level: (define ab = l1; resolve) ; reset ; (define ab = l2; resolve) gives l2, and
+/// after a reset with no definition the reference is undefined -- whatever the first assembly did, including
+/// failing half-way (the reference resolved or not before the reset)
+#[kani::proof]
+#[kani::unwind(6)]
+#[kani::stub(crate::symbol::with_symbol_table, stubs::with_symbol_table)]
+#[kani::stub(alloc::fmt::format, stubs::fmt_format)]
+fn c19_sequence_after_reset() {
+    let l1: u16 = kani::any();
+    let l2: u16 = kani::any();
+    let first_resolved: bool = kani::any();
+    let redefine: bool = kani::any();
+    assert!(Label::insert("ab", l1).is_ok());
+    if first_resolved {
+        let r = Label::Unfilled("ab".to_string()).filled();
+        assert!(matches!(r, Ok(Label::Ref(v)) if v == l1));
+        core::mem::forget(r);
+    }
+    reset_state();
+    if redefine {
+        assert!(Label::insert("ab", l2).is_ok(), "label of the previous source still recorded after reset");
+        let r = Label::Unfilled("ab".to_string()).filled();
+        assert!(matches!(r, Ok(Label::Ref(v)) if v == l2), "reference resolved to the previous source's label");
+        core::mem::forget(r);
+        assert!(matches!(Label::try_fill("ab"), Label::Ref(v) if v == l2));
+    } else {
+        let r = Label::Unfilled("ab".to_string()).filled();
+        assert!(r.is_err(), "reference to a label only the previous source defined is accepted after reset");
+        core::mem::forget(r);
+    }
+    kani::cover!(first_resolved && redefine && l1 != l2);
+    kani::cover!(!redefine);
+}
